@@ -8,7 +8,7 @@
 (*     blank and comment lines                                              *)
 (*   - the ~Other loop                                                      *)
 (*   - provisional steering values: VERS/WRAP/DLM from ~V, NULL from ~W     *)
-(*   - inspect_data_section: token counts of the first <= 21 lines of ~A    *)
+(*   - inspect_data_section: token counts of the first <= 21 data lines    *)
 (*     (blank and comment lines not counted), -1 when inconsistent          *)
 (*   - column count handed to the reader: sniffed; declared when            *)
 (*     inconsistent or when the file is wrapped                             *)
@@ -67,9 +67,12 @@ AIdx(text) == SecIndex(text, "A")
 ALines(text) == LET j == AIdx(text) IN IF j = 0 THEN <<>>
                 ELSE LET a == Titles(text)[j] + 1  b == LastLine(text, j) IN [i \in 1..(b - a + 1) |-> text[a + i - 1]]
 DataOf(lines) == SelectSeq(lines, LAMBDA ln : ln.k = "data")
-\* sniffing: at most 21 physical lines are looked at; blank and comment lines contribute no count
+\* sniffing: the first <= 21 DATA lines are looked at; blank and comment lines neither count nor use up the window
+\* (before repair D37 the window was 21 physical lines: with SniffPhysical == TRUE this module describes that algorithm,
+\* and ReadInstances!AlgoRefinesIntent fails on the "tallhead" instances of family C07)
+SniffPhysical == FALSE
 Sniff(text) ==
-    LET ls == ALines(text)
+    LET ls == IF SniffPhysical THEN ALines(text) ELSE DataOf(ALines(text))
         looked == SubSeq(ls, 1, IF Len(ls) < 21 THEN Len(ls) ELSE 21)
         counts == {Len(looked[i].cells) : i \in {x \in DOMAIN looked : looked[x].k = "data"}}
     IN IF Cardinality(counts) = 1 THEN CHOOSE c \in counts : TRUE ELSE -1
